@@ -3,8 +3,8 @@ from vlib import gen, scen
 
 PROP = "C04"
 LEVEL = "exploration"
-RULE = ("random sequences (1..12) of the ten API operations (incl. reboot, pull with callback = nested STAT stream, multi-WRTE pushes, streaming_shell consumed "
-        "fully / partly) x common dimensions; the StreamMonitor state machine checks every host packet against the device-side stream state: OPEN (fresh non-zero id, "
+RULE = ("random sequences (1..12) of the ten API operations (incl. reboot, pull with callback = nested STAT stream, multi-WRTE pushes, pushes the device rejects with a FAIL "
+        "placed anywhere relative to its OKAYs, commands about as long as maxdata, streaming_shell consumed fully / partly) x common dimensions; the StreamMonitor state machine checks every host packet against the device-side stream state: OPEN (fresh non-zero id, "
         "arg1=0, one NUL), (local, remote) on every later packet, OKAY only for an un-acked device WRTE, no WRTE before the previous one was acknowledged, "
         "nothing after the host's CLSE, and for calls that return normally: device CLSE seen, exactly one host CLSE, every delivered WRTE acked. "
         "non-trivial = at least one stream opened; distinct = distinct (impl, operation sequence, remote regime, maxdata) signatures")
@@ -12,7 +12,7 @@ ASSUMPTIONS = ["stream closure is demanded only of calls that return normally (p
                "the simulator answers a host CLSE on a live stream with one CLSE and stalls (stop-and-wait) until it is owed OKAY arrives"]
 SHARDS = {"quick": 8, "thorough": 16}
 TIME_BUDGET = {"quick": 60, "thorough": 600}
-FLOORS = {"quick": {"opens": 2000, "okays_checked": 2000, "wrtes_checked": 1000, "clses_checked": 1500, "calls_closed_checked": 1500, "distinct": 300},
+FLOORS = {"quick": {"opens": 2000, "okays_checked": 2000, "wrtes_checked": 1000, "clses_checked": 1500, "calls_closed_checked": 1500, "distinct": 300, "pushes_failed_by_device": 60, "long_commands": 40},
           "thorough": {"opens": 30000, "okays_checked": 30000, "wrtes_checked": 15000, "clses_checked": 20000, "calls_closed_checked": 20000}}
 
 
@@ -24,7 +24,7 @@ def gen_cases(tier, seed):
 
 def run_case(case):
     rng = gen.rng_for("C04", case["seed"])
-    sc = scen.gen_scenario(rng, nsteps=rng.randint(1, 12), big=rng.random() < 0.05)
+    sc = scen.gen_scenario(rng, nsteps=rng.randint(1, 12), big=rng.random() < 0.05, fails=True, long_cmds=True)
     # pull with a callback opens a nested STAT stream: make it frequent
     for st in sc["steps"]:
         if st["op"] == "pull" and rng.random() < 0.5:
@@ -38,6 +38,8 @@ def run_case(case):
         stats = {k: m.counts[k] for k in ("opens", "okays_checked", "wrtes_checked", "clses_checked", "calls_closed_checked", "streams_closed_clean", "streams_abandoned", "noise_packets", "host_packets", "dev_packets")}
         stats["steps"] = len(res)
         stats["steps_raised"] = sum(1 for (_, o, _) in res if not o.ok)
+        stats["pushes_failed_by_device"] = sum(1 for (st_, o, _) in res if st_.get("fail"))
+        stats["long_commands"] = sum(1 for (st_, o, _) in res if len(st_.get("cmd", "")) > 1000)
         stats["side_result_mismatches"] = sum(len(v) for (_, _, v) in res)
         states = {}
         for st in sess.sim.all_streams:
